@@ -230,7 +230,10 @@ def judge_program(asm, acc, m, tup, kw, alias=False):
         line = m + (' ' + ', '.join(ops) if ops else '')
     acc['n'] += 1
     status, exp = operands.expected(m, tup, **(kw or {}))
-    o = monitors.observe(asm, pre + line, tap=False)
+    # (in alias mode the caller's label table also holds external symbols that are spelled like registers: in a register position a
+    # register name is a register)
+    ext = {'labels': {'x5': 0x20000000, 't0': 12, 's1': 9, 'a0': 0x100, 'fp': 3, 'zero': 5, 'ra': 40, 'x8': 31, 'sp': 0}} if alias else None
+    o = monitors.observe(asm, pre + line, tap=False, preseed=ext)
     acc['ntkeys'].add(core.ckey('prog', line)) if status != operands.UNSPEC else None
     acc['ctr']['prog_' + status] += 1
     case = {'kind': 'prog', 'm': m, 'args': list(tup), 'kw': kw or {}, 'alias': alias}
